@@ -1,4 +1,5 @@
 import RModel.Lemmas.Undo
+import RModel.Lemmas.PatchParse
 open Fs Apply RenamePhase Undo Patch
 namespace UndoLemmas
 
@@ -70,18 +71,13 @@ theorem tree_ext : ∀ (t t' : Tree), t'.map (·.1) = t.map (·.1) → t.Pairwis
 
 
 
-/-- a path string diffy's parser accepts unquoted and returns unchanged -/
-def NameOk (n : Bytes) : Prop := n.all (fun c => !isEscaped c) = true
-
-instance (n : Bytes) : Decidable (NameOk n) := by unfold NameOk; infer_instance
-
 /-- what is assumed about the diff library (never an axiom: a hypothesis of the theorems) -/
 structure Contract (cfg : Cfg) : Prop where
   roundtrip : ∀ a b, cfg.patchApply (cfg.diff a b) a = some b
   emptyId : ∀ p a, p.hunks = [] → cfg.patchApply p a = some a
   nameBlind : ∀ (p : Patch.Patch) n1 n2 a, cfg.patchApply { p with old := n1, new := n2 } a = cfg.patchApply p a
-  parses : ∀ a b n1 n2, NameOk n1 → NameOk n2 →
-    Patch.parse (rewriteHeaders (fmt (cfg.diff a b)) n1 n2) = .ok { cfg.diff a b with old := some n1, new := some n2 }
+  names : ∀ a b, (cfg.diff a b).old = some b!"original" ∧ (cfg.diff a b).new = some b!"modified"
+  selfParse : ∀ a b, Patch.parse (fmt (cfg.diff a b)) = .ok (cfg.diff a b)
 
 theorem Contract.eq_of_noHunks {cfg : Cfg} (hc : Contract cfg) {a b : Bytes} (h : (cfg.diff a b).hunks = []) :
     a = b := by
@@ -91,12 +87,14 @@ theorem Contract.eq_of_noHunks {cfg : Cfg} (hc : Contract cfg) {a b : Bytes} (h 
 
 theorem applyOne_good (cfg : Cfg) (hc : Contract cfg) (T : Tree) (f cur : Path) (c1 c0 : Bytes) (m : Nat)
     (hl : lookup T f = some (.file c1 m)) (hv : Utf8.valid c1 = true)
-    (hn1 : NameOk (joinPath cur)) (hn2 : NameOk (joinPath f)) :
+    (hh : (cfg.diff c1 c0).hunks ≠ []) :
     applyOne cfg T { orig := f, cur := cur,
                      text := rewriteHeaders (fmt (cfg.diff c1 c0)) (joinPath cur) (joinPath f) }
       = (setContent T f c0, false) := by
   unfold applyOne readStr
-  simp only [hl, hv, if_true, hc.parses c1 c0 _ _ hn1 hn2, hc.nameBlind, hc.roundtrip]
+  have hp := PatchParse.parse_rewrite (cfg.diff c1 c0) (joinPath cur) (joinPath f) (hc.names c1 c0).1 (hc.names c1 c0).2 hh
+    (hc.selfParse c1 c0)
+  simp only [hl, hv, if_true, hp, hc.nameBlind, hc.roundtrip]
 
 /-- what the content phase does, lookup-wise -/
 theorem contentPhase_lookup (hs : List Apply.Hunk) (fs : List Path) : ∀ (t t1 : Tree),
@@ -163,8 +161,8 @@ theorem contentPhase_lookup (hs : List Apply.Hunk) (fs : List Path) : ∀ (t t1 
 
 
 def GoodAt (cfg : Cfg) (C0 : Path → Bytes) (T : Tree) (pr : PatchRec) : Prop :=
-  ∃ c1 m, lookup T pr.orig = some (.file c1 m) ∧ Utf8.valid c1 = true ∧ NameOk (joinPath pr.cur) ∧
-    NameOk (joinPath pr.orig) ∧
+  ∃ c1 m, lookup T pr.orig = some (.file c1 m) ∧ Utf8.valid c1 = true ∧
+    (cfg.diff c1 (C0 pr.orig)).hunks ≠ [] ∧
     pr.text = rewriteHeaders (fmt (cfg.diff c1 (C0 pr.orig))) (joinPath pr.cur) (joinPath pr.orig)
 
 /-- STEP 2 of undo over patches that are all applicable: every patched file gets its original content -/
@@ -179,9 +177,9 @@ theorem applyPatches_good (cfg : Cfg) (hc : Contract cfg) (C0 : Path → Bytes) 
   | cons pr ps ih =>
     intro T n hd hg
     have hc' := List.pairwise_cons.1 hd
-    obtain ⟨c1, m, hl, hv, hn1, hn2, htext⟩ := hg pr List.mem_cons_self
+    obtain ⟨c1, m, hl, hv, hh, htext⟩ := hg pr List.mem_cons_self
     have hone : applyOne cfg T pr = (setContent T pr.orig (C0 pr.orig), false) := by
-      have := applyOne_good cfg hc T pr.orig pr.cur c1 (C0 pr.orig) m hl hv hn1 hn2
+      have := applyOne_good cfg hc T pr.orig pr.cur c1 (C0 pr.orig) m hl hv hh
       rw [← htext] at this
       exact this
     have hg2 : ∀ pr' ∈ ps, GoodAt cfg C0 (setContent T pr.orig (C0 pr.orig)) pr' := by
